@@ -7,6 +7,7 @@ package main
 import (
 	"errors"
 	"fmt"
+	"math/big"
 	"sort"
 	"strconv"
 	"strings"
@@ -35,8 +36,20 @@ type opSpec struct {
 	probe       bool   // a fund of everything spendable issued by the runner after a failed call
 }
 
-func zlit(c types.Currency) string { return "(" + curStr(c) + ")%Z" }
-func zint(v int) string            { return "(" + strconv.Itoa(v) + ")%Z" }
+// zlit renders a currency as a Z term; large literals are written k*1e20+r
+// (zu in Run_C07.v) because Coq parses long decimal literals slowly.
+func zlit(c types.Currency) string {
+	b := c.Big()
+	if b.BitLen() < 40 {
+		return "(" + b.String() + ")%Z"
+	}
+	u := new(big.Int).Exp(big.NewInt(10), big.NewInt(20), nil)
+	half := new(big.Int).Rsh(u, 1)
+	k := new(big.Int).Div(new(big.Int).Add(b, half), u)
+	r := new(big.Int).Sub(b, new(big.Int).Mul(k, u))
+	return "(zu " + k.String() + " (" + r.String() + "))"
+}
+func zint(v int) string { return "(" + strconv.Itoa(v) + ")%Z" }
 func nlist(xs []uint64) string {
 	s := make([]string, len(xs))
 	for i, x := range xs {
@@ -82,6 +95,18 @@ func (e *env) resolve(a string, t time.Duration) types.Currency {
 		return sum
 	case a == "bal+1":
 		return sum.Add(types.NewCurrency64(1))
+	case strings.HasPrefix(a, "d"): // the largest spendable value divided by k
+		k, _ := strconv.Atoi(a[1:])
+		var mx types.Currency
+		for _, v := range exp {
+			if v.Cmp(mx) > 0 {
+				mx = v
+			}
+		}
+		if k <= 0 {
+			k = 1
+		}
+		return mx.Div64(uint64(k))
 	case strings.HasPrefix(a, "p"):
 		body := a[1:]
 		delta := 0
@@ -224,7 +249,7 @@ func (e *env) refTx(ref int) *fundedTx {
 }
 
 // checkSelected runs the per-transaction monitors on what a funding call selected.
-func (e *env) checkSelected(what string, sel []types.SiacoinOutputID, unc bool, t time.Duration, exp map[types.SiacoinOutputID]types.Currency, created map[types.SiacoinOutputID]types.Currency, spent map[types.SiacoinOutputID]bool, outstanding []*fundedTx) types.Currency {
+func (e *env) checkSelected(what string, v2 bool, sel []types.SiacoinOutputID, unc bool, t time.Duration, exp map[types.SiacoinOutputID]types.Currency, created map[types.SiacoinOutputID]types.Currency, spent map[types.SiacoinOutputID]bool, outstanding []*fundedTx) types.Currency {
 	seen := map[types.SiacoinOutputID]int{}
 	var sum types.Currency
 	h := e.height()
@@ -235,6 +260,10 @@ func (e *env) checkSelected(what string, sel []types.SiacoinOutputID, unc bool, 
 			continue
 		}
 		if _, ok := created[id]; ok && unc && !e.isReservedBefore(id, t) {
+			// the pool accepts a transaction only together with unconfirmed parents of its own version
+			if pv2, ok := e.creatorV2(id); ok && pv2 != v2 {
+				e.fail("fund-unconfirmed-parent-of-other-version", "%s selected the unconfirmed output %d created by a pool transaction of the other version (v2=%v): no pool call accepts the funded transaction before that parent is confirmed", what, e.aid(id), pv2)
+			}
 			continue
 		}
 		le, inLedger := e.ledger[id]
@@ -282,7 +311,8 @@ func (e *env) doFund(o opSpec) (failed bool) {
 	outstanding := e.outstanding(t)
 	var uncSum types.Currency
 	for id, v := range created {
-		if !e.isReservedBefore(id, t) {
+		// unconfirmed outputs a transaction of this version can spend
+		if pv2, ok := e.creatorV2(id); ok && pv2 == o.V2 && !e.isReservedBefore(id, t) {
 			uncSum = uncSum.Add(v)
 		}
 	}
@@ -362,7 +392,7 @@ func (e *env) doFund(o opSpec) (failed bool) {
 	} else {
 		f.inputs = sel
 		if !e.tainted {
-			sum := e.checkSelected(what, sel, o.Unc, t, exp, created, spent, outstanding)
+			sum := e.checkSelected(what, o.V2, sel, o.Unc, t, exp, created, spent, outstanding)
 			if !sum.Equals(amount.Add(change)) {
 				e.fail("fund-conservation", "%s: inputs are worth %s, amount + change = %s + %s", what, curStr(sum), curStr(amount), curStr(change))
 			}
@@ -454,6 +484,18 @@ func (e *env) recordV1(txn types.Transaction) *poolRec {
 	return r
 }
 
+// creatorV2 tells whether the pool transaction that created id is a v2 transaction.
+func (e *env) creatorV2(id types.SiacoinOutputID) (v2, ok bool) {
+	for _, r := range e.poolRecs {
+		for _, out := range r.outs {
+			if out.ID == id {
+				return r.v2, true
+			}
+		}
+	}
+	return false, false
+}
+
 func (e *env) inPool(id types.TransactionID) bool {
 	for _, txn := range e.cm.PoolTransactions() {
 		if txn.ID() == id {
@@ -478,19 +520,6 @@ func (e *env) doBroadcast(o opSpec) {
 		e.stats["skip:broadcast"]++
 		return
 	}
-	if !f.v2 && f.unc {
-		// a v1 transaction cannot spend an output created by a v2 pool transaction
-		for _, id := range f.inputs {
-			for _, r := range e.poolRecs {
-				for _, out := range r.outs {
-					if out.ID == id && r.v2 {
-						e.stats["skip:broadcast"]++
-						return
-					}
-				}
-			}
-		}
-	}
 	t := e.begin()
 	var err error
 	var rec *poolRec
@@ -501,7 +530,14 @@ func (e *env) doBroadcast(o opSpec) {
 		}
 		var basis types.ChainIndex
 		var set []types.V2Transaction
-		basis, set, err = e.cm.V2TransactionSet(f.basis, f.v2txn)
+		func() {
+			defer func() {
+				if p := recover(); p != nil {
+					err = fmt.Errorf("chain.Manager.V2TransactionSet panicked: %v", p)
+				}
+			}()
+			basis, set, err = e.cm.V2TransactionSet(f.basis, f.v2txn)
+		}()
 		if err == nil {
 			if o.ViaWallet {
 				err = e.w.BroadcastV2TransactionSet(basis, set)
@@ -726,7 +762,7 @@ func (e *env) doRedist(o opSpec) (failed bool) {
 				}
 			}
 			if !e.tainted {
-				sum := e.checkSelected(what, sel, false, t, exp, created, spent, outstanding)
+				sum := e.checkSelected(what, true, sel, false, t, exp, created, spent, outstanding)
 				if !sum.Equals(outSum.Add(txn.MinerFee)) {
 					e.fail("redistribute-conservation", "%s: transaction %d has inputs worth %s, outputs %s + fee %s", what, i, curStr(sum), curStr(outSum), curStr(txn.MinerFee))
 				}
@@ -775,6 +811,12 @@ func (e *env) doSplit(o opSpec) (failed bool) {
 		res = "RErr"
 		opc = fmt.Sprintf("(Split %s %s %s 0 [], None)", zint(o.N), zlit(minAmt), zlit(fee))
 		e.stats["split:err"]++
+		msg := err.Error()
+		for _, k := range []string{"exceeds defrag threshold", "greater than zero", "greater than 1", "no unspent", "cover miner fee", "too small to split", "broadcast", "transaction set"} {
+			if strings.Contains(msg, k) {
+				e.stats["split:err:"+k]++
+			}
+		}
 	case len(txn.SiacoinInputs) == 0:
 		res = "RSplit None"
 		opc = fmt.Sprintf("(Split %s %s %s 0 [], None)", zint(o.N), zlit(minAmt), zlit(fee))
@@ -792,7 +834,7 @@ func (e *env) doSplit(o opSpec) (failed bool) {
 			}
 		}
 		if !e.tainted {
-			sum := e.checkSelected(what, []types.SiacoinOutputID{in}, true, t, exp, created, spent, outstanding)
+			sum := e.checkSelected(what, true, []types.SiacoinOutputID{in}, true, t, exp, created, spent, outstanding)
 			if len(txn.SiacoinInputs) != 1 || !sum.Equals(outSum.Add(txn.MinerFee)) {
 				e.fail("split-conservation", "%s: input worth %s, outputs %s + fee %s", what, curStr(sum), curStr(outSum), curStr(txn.MinerFee))
 			}
